@@ -51,9 +51,9 @@ NONASCII = {
 }
 SHIPPED = ["ResolveStringReferencesMiddleware", "RemoveEnclosingMiddleware", "SeparateCoAuthors", "SplitNameParts", "NormalizeFieldKeys",
            "SortFieldsAlphabeticallyMiddleware", "MonthIntMiddleware"]
-ATOMS = [["probe", "A"], ["probe", "B"], ["libprobe", "L"], ["ship", "ResolveStringReferencesMiddleware"], ["ship", "RemoveEnclosingMiddleware"],
+ATOMS = [["probe", "A"], ["probe", "B"], ["libprobe", "L"], ["keyprobe", "K"], ["ship", "ResolveStringReferencesMiddleware"], ["ship", "RemoveEnclosingMiddleware"],
          ["ship", "SeparateCoAuthors"], ["ship", "SplitNameParts"], ["ship", "NormalizeFieldKeys"], ["ship", "SortFieldsAlphabeticallyMiddleware"]]
-WATOMS = [["probe", "A"], ["probe", "B"], ["libprobe", "L"], ["ship", "AddEnclosingQ"], ["ship", "SortFieldsAlphabeticallyMiddleware"], ["ship", "NormalizeFieldKeys"]]
+WATOMS = [["probe", "A"], ["probe", "B"], ["libprobe", "L"], ["keyprobe", "K"], ["keyprobe", "K"], ["ship", "AddEnclosingQ"], ["ship", "SortFieldsAlphabeticallyMiddleware"], ["ship", "NormalizeFieldKeys"]]
 
 
 def stacks(atoms, maxlen):
@@ -165,6 +165,25 @@ def make_mw(spec, log):
                 entry["trace"] = (prev.value if prev is not None else "") + self.tag
             return library
 
+    class KeyProbe(BlockMiddleware):
+        """Renames entry and @string keys IN PLACE and returns the same instances: whatever follows in the
+        stack must see a library whose key index reflects the new keys."""
+
+        def __init__(self, tag):
+            super().__init__(allow_inplace_modification=True)
+            self.tag = tag
+
+        def transform_entry(self, entry, library):
+            entry.key = entry.key.swapcase()
+            log.append(self.tag)
+            return entry
+
+        def transform_string(self, string, library):
+            string.key = string.key.swapcase()
+            return string
+
+    if kind == "keyprobe":
+        return KeyProbe(name)
     if kind == "probe":
         return Probe(name)
     if kind == "libprobe":
@@ -184,9 +203,33 @@ def default_unparse():
     return [mws.AddEnclosingMiddleware(reuse_previous_enclosing=False, enclose_integers=True, default_enclosing="{", allow_inplace_modification=False)]
 
 
+def ref_transform(m, lib):
+    """The statement's reading of a block middleware inside a stack, computed by the harness: every
+    block is replaced in place by zero, one or several blocks and the result is a library over
+    exactly those blocks (fresh key index).  Library middlewares are applied as they are."""
+    from bibtexparser.library import Library
+    from bibtexparser.model import Block
+    from bibtexparser.middlewares.middleware import BlockMiddleware
+    if not isinstance(m, BlockMiddleware) or type(m).transform is not BlockMiddleware.transform:
+        return m.transform(lib)
+    blocks = []
+    for b in lib.blocks:
+        r = m.transform_block(b, lib)
+        if r is None:
+            continue
+        if isinstance(r, Block):
+            blocks.append(r)
+        else:
+            items = list(r)
+            if any(not isinstance(x, Block) for x in items):
+                raise TypeError("non-block result")
+            blocks.extend(items)
+    return Library(blocks)
+
+
 def fold(lib, mws):
     for m in mws:
-        lib = m.transform(lib)
+        lib = ref_transform(m, lib)
     return lib
 
 
